@@ -4,6 +4,7 @@
 import copy
 import json
 import math
+import os
 import sys
 import warnings
 from itertools import product
@@ -306,7 +307,7 @@ def load_measurement_outcome_distribution(file: str) -> MeasurementOutcomeDistri
     Returns:
         object: a python object loaded from the measurement_outcome_distribution
     """
-    if isinstance(file, str):
+    if isinstance(file, (str, os.PathLike)):
         with open(file, "r") as f:
             data = json.load(f)
     else:
@@ -333,7 +334,7 @@ def load_measurement_outcome_distributions(
         A list of measurement outcome distributions loaded
          from the measurement_outcome_distribution
     """
-    if isinstance(file, str):
+    if isinstance(file, (str, os.PathLike)):
         with open(file, "r") as f:
             data = json.load(f)
     else:
